@@ -364,6 +364,41 @@ func VerifC11_LimitOffset() {
 	rt.Reach("limitoffset-end")
 }
 
+// hand-written input with a backslash-escaped character (the documented way
+// to use a control character inside a value or key): the character is taken
+// literally, the backslash is dropped - outside and inside quotes
+func VerifC11_EscapedInput() {
+	c := rt.U8("c")
+	rt.Assume(rt.All(c != 0, c < 0x80))
+	quoted := rt.Bool("quoted")
+	inKey := rt.Bool("in-key")
+	tok := "a\\" + string(rune(c)) + "b"
+	if quoted {
+		tok = "\"" + tok + "\""
+	}
+	text := "query t: where k sameas " + tok
+	if inKey {
+		text = "query t: where " + tok + " sameas v"
+	}
+	rt.SetUnwind(4 * (len(text) + 4))
+	q, err := ParseQuery(text)
+	rt.Assert(err == nil, "escaped/parse-ok")
+	if err != nil {
+		return
+	}
+	sc, ok := q.where.(*stringCondition)
+	rt.Assert(ok, "escaped/is-string-condition")
+	if ok {
+		want := "a" + string(rune(c)) + "b"
+		if inKey {
+			rt.Assert(rt.EqStr(sc.key, want), "escaped/key-is-the-literal-character-without-the-backslash")
+		} else {
+			rt.Assert(rt.EqStr(sc.value, want), "escaped/value-is-the-literal-character-without-the-backslash")
+		}
+	}
+	rt.Reach("escaped-end")
+}
+
 // groups of zero or one condition, nested and negated
 func VerifC11_GroupShapes() {
 	a, b := Where("n", GreaterThan, 1), Where("s", SameAs, "x")
